@@ -3,3 +3,4 @@
 cd "$(dirname "$0")/.." || exit 2
 set -e
 bin/build.sh asan
+bin/build.sh tsan
